@@ -25,7 +25,7 @@ ASSUMPTIONS = ["no trailing-slash spellings, no symlinks, no '//' at the very st
 WDS = ["", "sub", "sub/deep", "other"]
 
 
-QUICK_BUDGET = {"cases": 4000, "deadline_s": 90, "case_timeout_s": 60, "floors": {"lib_graphs": 6000, "cli_info": 200, "edges_checked": 20000}}
+QUICK_BUDGET = {"cases": 4000, "deadline_s": 170, "case_timeout_s": 60, "floors": {"lib_graphs": 3779, "cli_info": 140, "edges_checked": 20000}}
 THOROUGH_FACTOR = 40  # thorough = the same workload with 40x the cases (floors scale along)
 
 
